@@ -21,7 +21,7 @@ import time
 from mc import canon, core, fordrun
 from mc.core import Stats
 from mc.explore import explore
-from mc.fmodel import (ATTRS, TYPE_SPECS, Common, Enum, Fixed, Interface, Namelist, Proc, SourceFile, Style, TypeDef, Unit, Var,
+from mc.fmodel import (ATTRS, TYPE_SPECS, Common, Enum, Fixed, Interface, Namelist, Namelist2, Proc, SourceFile, Style, TypeDef, Unit, Var,
                        VarItem)
 
 PROP = "C01"
@@ -246,6 +246,7 @@ def spec_alphabet(i):
         "enum-expr": lambda: Enum([(f"ka{s}", "1_c_int"), (f"kb{s}", None), (f"kc{s}", f"ka{s} + 2"), (f"kd{s}", None), (f"ke{s}", "7_8")]),
         "common": lambda: Common(f"cb{s}", [Var(f"cx{s}", "integer"), Var(f"cy{s}", "integer", shape="(2)")]),
         "namelist": lambda: Namelist(f"nl{s}", [Var(f"nx{s}", "integer"), Var(f"ny{s}", "real")]),
+        "namelist2": lambda: Namelist2(f"na{s}", [Var(f"px{s}", "integer"), Var(f"py{s}", "real")], f"nb{s}", [Var(f"pz{s}", "integer")]),
     }
 
 
@@ -291,7 +292,7 @@ def _register_dynamic_typespecs():
 _register_dynamic_typespecs()
 
 SPEC_KEYS = ["var", "emptytype", "fulltype", "generic-modproc", "generic-bodies", "operator", "assignment", "abstract", "explicit",
-             "enum", "common", "namelist", "enum-expr"]
+             "enum", "common", "namelist", "enum-expr", "namelist2"]
 PROC_KEYS = ["sub", "fn", "fn-result", "sub-internal", "fn-typed"]
 
 
